@@ -155,7 +155,11 @@ func (e *env) worker(t *Tree) fun.Worker {
 	case "when":
 		return kid(0).When(e.cond(t))
 	case "join":
-		return kid(0).Join(kid(1))
+		rest := make([]fun.Worker, 0, len(t.Kids)-1)
+		for i := 1; i < len(t.Kids); i++ {
+			rest = append(rest, kid(i))
+		}
+		return kid(0).Join(rest...)
 	case "pre":
 		return kid(1).PreHook(e.operation(t.Kids[0]))
 	case "post":
@@ -183,7 +187,11 @@ func (e *env) operation(t *Tree) fun.Operation {
 	case "when":
 		return kid(0).When(e.cond(t))
 	case "join":
-		return kid(0).Join(kid(1))
+		rest := make([]fun.Operation, 0, len(t.Kids)-1)
+		for i := 1; i < len(t.Kids); i++ {
+			rest = append(rest, kid(i))
+		}
+		return kid(0).Join(rest...)
 	case "pre":
 		return kid(1).PreHook(e.operation(t.Kids[0]))
 	case "post":
@@ -256,7 +264,11 @@ func (e *env) processor(t *Tree) fun.Processor[int64] {
 	case "when":
 		return kid(0).When(e.cond(t))
 	case "join":
-		return kid(0).Join(kid(1))
+		rest := make([]fun.Processor[int64], 0, len(t.Kids)-1)
+		for i := 1; i < len(t.Kids); i++ {
+			rest = append(rest, kid(i))
+		}
+		return kid(0).Join(rest...)
 	case "pre":
 		return kid(1).PreHook(e.operation(t.Kids[0]))
 	case "post":
@@ -283,7 +295,11 @@ func (e *env) handler(t *Tree) fun.Handler[int64] {
 		return kid(0).When(e.cond(t))
 	case "join":
 		if t.Impl == "chain" {
-			return kid(0).Chain(kid(1))
+			rest := make([]fun.Handler[int64], 0, len(t.Kids)-1)
+			for i := 1; i < len(t.Kids); i++ {
+				rest = append(rest, kid(i))
+			}
+			return kid(0).Chain(rest...)
 		}
 		return kid(0).Join(kid(1))
 	case "pre":
@@ -327,7 +343,11 @@ func (e *env) future(t *Tree) fun.Future[int64] {
 		if t.Impl == "reduce" {
 			return kid(0).Reduce(merge2, kid(1))
 		}
-		return kid(0).Join(merge2, kid(1))
+		rest := make([]fun.Future[int64], 0, len(t.Kids)-1)
+		for i := 1; i < len(t.Kids); i++ {
+			rest = append(rest, kid(i))
+		}
+		return kid(0).Join(merge2, rest...)
 	case "pre":
 		return kid(1).PreHook(e.fn(t.Kids[0]))
 	case "post":
